@@ -61,3 +61,6 @@ class StoreEntry;
 void storeAppendPrintf(StoreEntry *, const char *, ...)
 {
 }
+
+// compat/xalloc.cc reports allocation failures through this hook when it is set
+void (*failure_notify)(const char *) = nullptr;
